@@ -34,7 +34,7 @@ class Calls:
                      'is_none', 'hashable', 'callraises', 'call', 'fresh_obj', 'is_int_key', 'int_key', 'ite', 'attr',
                      'has_attr', 'catches', 'exc_is', 'iff', 'dynattr', 'truthy', 'key_at', 'idx_of', 'old', 'is_fresh',
                      'seq_of', 'card', 'same_elements', 'typeof', 'callv', 'callvraises', 'isinst_dyn', 'lt', 'unhashable_any',
-                     'mhas', 'mget', 'shas', 'without_key', 're_compile_raises', 're_compile', 'as_map', 'as_seq', 'as_set', 'sat', 'slen', 'mlen', 'methraises', 'methcall', 'gen_of', 'nth_where', 'count_where', 'ghost', 'zlen', 'isfinite', 'ret_make_converter', 'ret_into_data', 'ret', 'retc', 'clsref', 'attr_named', 'ext', 'did_call', 'exited', 'cm_enter', 'clsref_dotted', 'List', 'ghost_int', 'id_of', 'fnref', 'called', 'hash_of', 'forall_bools4', 'methv', 'getattr', 'kept_seq', 'get_origin', 'get_args', 'callraises_as', 'isabstract', 'issub'}
+                     'mhas', 'mget', 'shas', 'without_key', 're_compile_raises', 're_compile', 'as_map', 'as_seq', 'as_set', 'sat', 'slen', 'mlen', 'methraises', 'methcall', 'gen_of', 'nth_where', 'count_where', 'ghost', 'zlen', 'isfinite', 'ret_make_converter', 'ret_into_data', 'ret', 'retc', 'clsref', 'attr_named', 'ext', 'did_call', 'exited', 'cm_enter', 'clsref_dotted', 'List', 'ghost_int', 'id_of', 'fnref', 'called', 'hash_of', 'forall_bools4', 'methv', 'getattr', 'kept_seq', 'get_origin', 'get_args', 'callraises_as', 'isabstract', 'issub', 'closure_of', 'closure_free'}
 
     # ------------------------------------------------------------------------------------
     def ev_Call(self, node, st):
@@ -45,11 +45,24 @@ class Calls:
         def k_func(f, s):
             pos_nodes = node.args
             kw_nodes = node.keywords
+            ac = getattr(self.cur_contract, 'at_calls', None) if not self.spec_mode and self.depth == 0 else None
+            if ac and self.src(node.func) in ac:
+                lam, props = ac[self.src(node.func)]
+                s_at = s.fork()
+                goal = self.eval_clause(lam, s_at.env, s_at)
+                self.emit(Obligation(self.cur_func_key, 'at-call', f'{self.next_label()}', props, list(s_at.pc), goal,
+                                     origin=f'call-site condition at {self.src(node.func)}(...) (line {node.lineno})', path_kind='call'))
             if any(isinstance(a, ast.Starred) for a in pos_nodes) or any(k.arg is None for k in kw_nodes):
                 return self.call_starred(f, node, s)
             # spec quantifiers take lambdas unevaluated
             if isinstance(f, VBuiltin) and f.name in ('spec.forall', 'spec.exists', 'spec.forall_val', 'spec.exists_val'):
                 return self.spec_quant(f.name[5:], node, s)
+            if isinstance(f, VBuiltin) and f.name == 'spec.old':
+                # old(E): E read in the state the function was entered in (attribute writes made by the body are not visible)
+                env0 = {k_: v_ for k_, v_ in s.env.items() if not (k_.startswith('$attrs:') or k_.startswith('$attrsv:'))}
+                r_, s2_ = self.ev1(node.args[0], State(env0, list(s.pc), list(s.notes)))
+                s.pc.extend(s2_.pc[len(s.pc):])
+                return [(r_, s)]
             if isinstance(f, VBuiltin) and f.name == 'spec.kept_seq':
                 # kept_seq("tuple"|"list", n, lambda i: keep, lambda i: elem): the value a filtered comprehension builds
                 target = node.args[0].value
@@ -219,6 +232,10 @@ class Calls:
         if isinstance(f, VClass):
             return self.call_class(f, args, kwargs, st, node)
         if isinstance(f, VVal):
+            # a value that is (after simplification) the constant of a module-level repo function: call that function
+            ft = z3.simplify(f.term)
+            if z3.is_const(ft) and ft.decl().name() in getattr(self, 'fn_by_const', {}):
+                return self.call_func(self.fn_by_const[ft.decl().name()], args, kwargs, st, node)
             return self.call_value(f, args, kwargs, st, node)
         raise OutOfSubset(f'call of {type(f).__name__}', node)
 
